@@ -130,6 +130,7 @@ type event struct {
 	fn   func()
 
 	hostile     *hostileMsg
+	viaConn     bool // hostile message delivered through a real MConnection
 	fpBefore    string
 	allocBefore uint64
 }
@@ -624,6 +625,16 @@ func (cl *Cluster) deliver(e *event) {
 	if e.hostile != nil {
 		e.fpBefore = stateFinger(to)
 		e.allocBefore = totalAlloc()
+	}
+	if e.hostile != nil && e.viaConn {
+		// the real connection layer around the reactor: a real MConnection whose
+		// receive routine calls Receive. What a panic in Receive costs (the peer,
+		// not the process) is decided by the code under test, not by a recover of
+		// the simulator; a process that dies is classified by the kernel (OnCrash)
+		if cl.deliverViaConn(to, peer, e.chID, e.msg) {
+			cl.c.Probe("receive-panic(peer dropped by the real connection)")
+		}
+		return
 	}
 	site, msg, panicked := kernel.Try(func() { to.reactor.Receive(e.chID, peer, e.msg) })
 	if panicked {
